@@ -225,6 +225,33 @@ def _extent_is_dim(lp, pname, index):
     return isinstance(ext, T) and _dim_of(ext, pname, index)
 
 
+def _exclusion_by_subtraction(run, g, fn, q, what):
+    from ..walk import norm_stmt
+    """the interference written as TOTAL - OWN (`np.sum(P, axis=0) - P`): mathematically the sum over the other sources, numerically a difference of nearly equal numbers as
+    soon as one source dominates - the interference of the dominant source is rounding noise, zero or negative, and its SIR is inf / NaN.  Reported as a deviation."""
+    hits = []
+    for e in g.events:
+        if e.kind != 'call' or not (call_parts(e.term)[0] or '').endswith('::_sxr'):
+            continue
+        for t in walk_terms(call_arg(e.term, 1)):
+            if t.op == 'binop' and t.args[0] == 'Sub':
+                a, b = strip_views(t.args[1]), strip_views(t.args[2])
+                if is_call_to(a, 'numpy.sum') and const_val(call_arg(a, None, 'axis')) in (0, (0,)) and \
+                        any(call_parts(x)[0] == S + 'get_variance_for_zero_mean_signal' for x in walk_terms(a)) and \
+                        any(call_parts(x)[0] == S + 'get_variance_for_zero_mean_signal' for x in walk_terms(b)):
+                    hits.append(t)
+    seen = set()
+    for t in hits:
+        if t.id in seen:
+            continue
+        seen.add(t.id)
+        run.violation('SELF', f'{what}: the interference power is a SUM of the other sources\' powers', fn.loc(getattr(t, 'node', None)),
+                      f'`{norm_stmt(t.node) if getattr(t, "node", None) is not None else "total - own"}` takes the interference as total minus own power: with one dominant source the '
+                      f'difference of two nearly equal numbers is rounding noise (zero or negative), SIR and SDR of that source become inf / NaN; the sum over the other '
+                      f'sources is exact', construct=f'SELF::{q}::exclusion-by-subtraction')
+    return bool(seen)
+
+
 def check_self_exclusion(run, A):
     # input_sxr: I[k, d] = sum(S[[n for n in range(K) if n != k], d], axis=0)     for every source k and sensor d
     q = S + 'input_sxr'
@@ -267,9 +294,12 @@ def check_self_exclusion(run, A):
             cond_ok = r_ is not None and r_[0] == 'index' and r_[1] is kL
         k_full = _extent_is_dim(kL, 'images', 0)
         ok = ok or (full and elt_is_n and cond_ok and k_full and const_val(call_arg(val, None, 'axis')) in (0, NOVAL))
-    if cands == 0:
+    if cands == 0 and _exclusion_by_subtraction(run, g, fn, q, 'input_sxr'):
+        ok = cands = None
+    elif cands == 0:
         raise AnalysisError('input_sxr: the interference power (a sum over rows of the source power, per source and sensor) is no longer recognised')
-    run.check(ok, 'SELF', 'input_sxr: interference of source k sums all sources n != k', fn.loc(), '', 'the interference power of source k does not exclude exactly the own source',
+    if ok is not None:
+      run.check(ok, 'SELF', 'input_sxr: interference of source k sums all sources n != k', fn.loc(), '', 'the interference power of source k does not exclude exactly the own source',
               construct=f'SELF::{q}::exclusion')
     # output_sxr: II[k] = sum(delete(S[:, selection[k]], k, axis=0))
     q = S + 'output_sxr'
@@ -299,9 +329,12 @@ def check_self_exclusion(run, A):
         for e in g.events:
             if e.kind == 'store' and is_call_to(strip_views(e.term.args[2]), 'numpy.sum') and is_call_to(strip_views(call_arg(strip_views(e.term.args[2]), 0)), 'numpy.delete'):
                 cands += 1
-    if cands == 0:
+    if cands == 0 and _exclusion_by_subtraction(run, g, fn, q, 'output_sxr'):
+        ok = None
+    elif cands == 0:
         raise AnalysisError('output_sxr: the interference power (sum of a column of the source power with one row deleted) is no longer recognised')
-    run.check(ok, 'SELF', 'output_sxr: interference at the selected output excludes the own source', fn.loc(), '',
+    if ok is not None:
+      run.check(ok, 'SELF', 'output_sxr: interference at the selected output excludes the own source', fn.loc(), '',
               'II[k] is not the sum of S[:, selection[k]] with row k deleted', construct=f'SELF::{q}::exclusion')
 
 
@@ -619,6 +652,8 @@ def check(run):
     check_none_use(run, A, ('pb_bss.evaluation.',))
     check_argument_names(run, A, ('pb_bss.evaluation.',))
     check_stale_loop_variables(run, A, ('pb_bss.evaluation.',))
+    from ..opt import check_extent_loops
+    check_extent_loops(run, A, ('pb_bss.evaluation.',))
     check_forwarding(run, A, ('pb_bss.evaluation.',))
     check_params_reach(run, A, ('pb_bss.evaluation.',))
     check_optional_truthiness(run, A, ('pb_bss.evaluation.',))
